@@ -1,17 +1,18 @@
 (* C09 - A session with four conforming clients always runs to completion (every schedule).
    Only statements, each closed by [exact]; proofs are in the files imported below. *)
-From BE Require Import Model.Session Model.SessionTie Spec.SessionSpec Proofs.Kahn Proofs.Session Proofs.SessionExamples Proofs.SessionPassOut Proofs.Wire Model.Conform Proofs.SessionConform.
+From BE Require Import Model.Session Model.SessionTie Spec.SessionSpec Proofs.Kahn Proofs.Session Proofs.SessionExamples Proofs.SessionPassOut Proofs.Wire Model.Conform Proofs.SessionConform Proofs.SessionAdmission Proofs.SessionArrivals.
 From BE Require Import Gen.Skeleton Proofs.SkeletonPin.
-From Coq Require Import ZArith.
+From Coq Require Import ZArith Permutation.
 Local Open Scope nat_scope.
 Local Open Scope list_scope.
 (* FULL STATEMENT, PROVED (C09_conforming_sessions_complete / _every_schedule, Proofs/SessionConform.v): for every non-empty
    board list (any deals, dealers, vulnerabilities, ids), any two team names and EVERY conforming behaviour of the four clients
    (any legal auction of any length, any sequence of legal plays, every spelling of a call or card that the server parses - case,
    alerts, either card notation), every schedule of the network of threads ends with every process returned and one log record
-   per board.  The four clients of these theorems connect in the order N, E, S, W; other arrival orders and extra requests are
-   covered up to the start of board 1 by the admission theorems of C20 (Proofs/SessionAdmission.v), and beyond by the
-   schedule-independence theorem plus the per-session evaluation (the statement that keeps the suffix _partial). *)
+   per board.  First proved for clients connecting in the order N, E, S, W, then lifted to EVERY list of requests that fills the
+   table (C09_any_arrivals_every_schedule): main, the four seated connections and their clients return, turned-away clients
+   have stopped at their error line, and only the clients of requests that arrived after the table was full wait for ever -
+   which is what the property's premise (four conforming clients) leaves open. *)
 (* every channel of the session network has one reader and one writer, for every input and every message that might arrive *)
 Theorem C09_ownership :
   forall x, wf_state msg (rd x) (wr x) cw (init_state x).
@@ -80,6 +81,35 @@ Theorem C09_conforming_sessions_every_schedule :
       length l' <= n /\ (sfinal s' -> s' = f).
 Proof. exact conforming_session_every_schedule. Qed.
 Print Assumptions C09_conforming_sessions_every_schedule.
+
+(* FULL for every request list that fills the table, any number of connections: every schedule ends, within the same number of steps, in the one final state described by arrivals_outcome - main returned, log complete, the four seated connections and their clients returned *)
+Theorem C09_any_arrivals_every_schedule :
+  forall x : session,
+  let reqs := s_arrivals x in
+  let T := seat_requests reqs empty_table in
+  s_boards x <> [] -> s_interrupt x = None -> wf_requests reqs -> all_seated T = true ->
+  conforming (s_boards x) (seated_scripts x) = true ->
+  exists f N, sfinal f /\ arrivals_outcome x f /\
+    forall l' s', srun l' (init_state x) = Some s' ->
+      length l' <= N /\ (sfinal s' -> s' = f /\ length l' = N).
+Proof. exact conforming_session_any_arrivals_every_schedule. Qed.
+Print Assumptions C09_any_arrivals_every_schedule.
+
+(* in particular for the four acceptable requests in any order every process finishes *)
+Theorem C09_any_order_of_the_four :
+  forall boards ns ew reqs scripts,
+  Permutation (four_requests ns ew) reqs ->
+  boards <> [] -> no_quote ns -> no_quote ew ->
+  let x := mkSession boards reqs scripts None in
+  let T := seat_requests reqs empty_table in
+  conforming boards (seated_scripts x) = true ->
+  exists l f, srun l (init_state x) = Some f /\ Kahn.all_doneb msg f = true /\
+    (forall p, names_of T p = NM ns ew p) /\
+    (exists recs, log_events 4 f = LOpen :: map LRec recs ++ [LClose] /\
+                  map Some recs = recs_from (names_of T) (seated_scripts x) 0 boards) /\
+    (forall p, chan f (tr_down 4 (conn_map reqs p)) = down_view boards ns ew (seated_scripts x) p).
+Proof. exact conforming_session_any_order. Qed.
+Print Assumptions C09_any_order_of_the_four.
 
 (* the special case proved first: ANY non-empty list of boards (arbitrary deals, dealers, vulnerabilities, ids), four clients arriving N, E, S, W, everybody passing: a schedule exists that drives the network to the state where every process has returned, with a log of one record per board *)
 Theorem C09_passed_out_sessions_complete :
